@@ -282,6 +282,8 @@ pub enum NodeCmd {
     Dial(PeerId),
     DialAddress(Multiaddr),
     AddKnown(PeerId, Multiaddr),
+    /// put a dump of the node's transport manager (peer states, address books) into the slot
+    Snapshot(Arc<Mutex<Option<litep2p::verif::ManagerSnapshot>>>),
 }
 
 #[derive(Debug, Clone)]
@@ -398,6 +400,9 @@ impl World {
                         }
                         Some(NodeCmd::AddKnown(p, a)) => {
                             litep2p.add_known_address(p, std::iter::once(a));
+                        }
+                        Some(NodeCmd::Snapshot(slot)) => {
+                            *slot.lock() = Some(litep2p.verif_snapshot());
                         }
                     },
                     ev = litep2p.verif_next_event() => match ev {
